@@ -551,6 +551,12 @@ def main():
         for func, pred, det, cond in r['viol']:
             ck.violation(func, pred, det, cond)
         items += r['lean']
+    # ---- timeouts are bounded, not merely counted: these utilities are loop-free, so a watchdog hit on more than
+    # max(2, 0.1 %) of the calls means a routine stopped returning (common.Check additionally reports any routine
+    # that never returned normally)
+    nto = ck.dist.get('timeouts', 0)
+    if nto > max(2, ck.cov['evaluations'] // 1000):
+        ck.breaks.append({'kind': 'liveness', 'what': 'too many watchdog timeouts', 'timeouts': nto, 'evaluations': ck.cov['evaluations']})
     # ---- correspondence: the Lean model on the same inputs (order oracle supplied by the harness)
     if ok:
         try:
